@@ -8,6 +8,11 @@ from pathlib import Path
 
 VERIF = Path(__file__).resolve().parent.parent
 NOTES = {
+    "C04-r5change1": "missed at first: no plan had a hundred commands; a chain of long plans (104 -> 112 -> 95 -> 131 commands) is now run per job (two jobs in the quick tier)",
+    "C04-r5change2": "missed at first (the state is reached only by one windbreaker skill cast with fewer than its three charges): every numeric / boolean field of every recorded entity is now moved away from its recorded value and must survive Checkpoint.restore().save() (simlib.perturbed_roundtrip; also in check_C01), and every checkpoint a result carries must restore to itself",
+    "C06-r5change1": "missed at first: operation engines work on a restored copy of the store and never show a clock shared between stores; per job two SimulationRuntimes and a new engine are now advanced in one process and every clock must be the sum of the elapses dispatched to it",
+    "C06-r5change2": "missed at first: RESOLVE was rarely aimed at a skill with nothing pending; per job and skill: ELAPSE, RESOLVE (idle key-down skills announce negative delays), CAST, three RESOLVEs, a long ELAPSE, RESOLVE -- each by the first positive pending delay, never backwards",
+    "C16-r5change2": "missed at first (a data slip that the code reads back faithfully): two pairs of the replacement table that are crossed (X replaced by `Y VI` and Y by `X VI`) are now reported",
     "C16-r4change1": "missed at first (a sweep that visits low levels first never sees a cache keyed without the levels): per job a list of configurations that is NOT sorted is built in two new interpreters in opposite orders (harness/c16_order.py) and every skill set and damage figure must agree",
     "C16-r4change2": "missed at first (the mechanism belongs to C20, whose quick check reports it too): the same order test also builds every configuration from the environment an in-memory memoizer shared by the list hands out",
     "C17-r4change1": "first reported without a failing input: star force is now also computed for the same gear with ANOTHER base stat and the same reference stat -- the bonus must not change (it is computed on the gear as enhanced so far)",
